@@ -42,6 +42,26 @@ short = {
  'C18-c': ('previous-zone and vSwitch-zone requirements merged into one union', 're-created fixed-IP pod whose old zone lost its vSwitch'),
  'C19-c': ('flavor computed after the changed/unchanged snapshot', 'instance type changed, configuration unchanged'),
  'C20-c': ('chainer guard tests `edtSupport`', 'kernel with eBPF but without the EDT helper'),
+ 'C01-d': ('`allocWorker` keeps the peeked address across `cond.Wait`', 'dual stack, IPv6 arrives later, another request takes the IPv4 meanwhile'),
+ 'C02-d': ('dual-stack roll-back no longer clears the in-memory IPv4 reference', 'roll-back in the first pass, IPv6 added in the same reconcile'),
+ 'C03-d': ('`ReleaseIP` prefers the API UID over the recorded one', 'same-name pod re-created before the old sandbox\'s DEL'),
+ 'C04-d': ('`ReleaseIP` registers the pending-mark delete before the `LoadOrStore` check', 'rejected DEL during an in-flight ADD, then a third request'),
+ 'C05-d': ('`load` trims to the cap before re-applying stored bindings', 'restart with a smaller per-ENI cap'),
+ 'C06-d': ('`load` compares the primary address via `AddrFromSlice` of a 16-byte `net.IP`', 'restart, idle primary, pool shrink'),
+ 'C07-d': ('`AssignNIPv4` returns no address when the metadata wait fails', 'assign executed, metadata lags'),
+ 'C08-d': ('`if err :=` shadows the roll-back condition at the attach call', 'attach refused after create'),
+ 'C09-d': ('`gcPods` logs a failed pod lookup and falls through', 'API error for a record outside the running set'),
+ 'C10-d': ('`if err := Create` shadows the roll-back condition in `podCreate`', 'record create fails after the interfaces were created'),
+ 'C11-d': ('collector writes its verdict with `Status().Patch`', 're-bind between list and write'),
+ 'C12-d': ('IPv6 UID guard removed in `CRDV2.multiIP`', 'stale IPv6 record of a previous same-named pod'),
+ 'C13-d': ('`FindIPRule` also filters by table', 'left-over from-rule of a previous holder of the address'),
+ 'C14-d': ('`found` flag hoisted out of the key loop in `FilterBySrcIP`', 'second IPv6 pod sharing the first address word'),
+ 'C15-d': ('emptiness guard tests `len(n.NetworkCards)`', 'NUMA hint or recorded card index outside the cards'),
+ 'C16-d': ('explicit roll-back added next to the deferred one in the EFLO create', 'business error, retry, then one more create'),
+ 'C17-d': ('looked-up vSwitch cached only when the flight was not shared', 'concurrent cold lookups, then Block'),
+ 'C18-d': ('missing `eni-config` tolerated when filling defaults', 'config map deleted while a pod needs defaults'),
+ 'C19-d': ('failed metadata lookup no longer aborts `initInstanceLimit`', 'stale annotation + metadata hiccup'),
+ 'C20-d': ('chainer guard tests `edtSupport`', 'eBPF kernel without the EDT helper'),
 }
 rows = []
 for d in sorted(glob.glob('/verif/seeded/*')):
